@@ -80,6 +80,12 @@ func (k *checker) formatCase(idx int) {
 		ffile{"sub/comment-only.ecal", "# nothing here\n", true},
 		ffile{"crlf.ecal", "a := 1\r\nif a {\r\n  b := 2\r\n}\r\n", true},
 		ffile{"noeol.ecal", "a := 1", true},
+		// lines far beyond 64 KiB (a long string, a long one-line list) after and
+		// before complete statements, large files, a very long single token
+		ffile{"long/string.ecal", "a := 1\nb := \"" + strings.Repeat("x", 70000+r.Intn(5000)) + "\"\nc := 2\n", true},
+		ffile{"long/list.ecal", "first := 0\nl := [" + strings.Repeat("1, ", 25000+r.Intn(3000)) + "1]\nlast := len(l)\n", true},
+		ffile{"long/many.ecal", strings.Repeat("v := v + 1\n", 9000+r.Intn(2000)), true},
+		ffile{"long/ident.ecal", "k := 5\n" + strings.Repeat("q", 66000) + " := k\n", true},
 		ffile{"sub/deeper/notes.txt", "a   :=   1 # keep me\n", false},
 	)
 	for _, f := range files {
